@@ -25,7 +25,7 @@ from .astutil import unparse
 from .facts import Closure
 from .bitcells import (Unsupported, Param, View, Bits, CU32, ModVal, Maybe, TableVal, Opaque, FuncValue, TOP, PCell, Cell,
                        merge_cells, INF)
-from .bitstate import State, Joiner, model_of
+from .bitstate import State, Joiner, model_of, UNIVERSE
 from .bitexpr import ExprMixin
 from .bitcall import CallMixin
 from .bitstmt import StmtMixin
@@ -46,6 +46,7 @@ class Interp(ExprMixin, CallMixin, StmtMixin, Joiner):
         self.def_stack = []
         self.rets = []
         self.nch = 0
+        self.nfork = 0
         self.reg_tables = set()
         self.src_table = {}
         self.notes = set()
@@ -70,7 +71,7 @@ class Summary:
         self.overlaps = interp.overlaps
         self.problems = list(interp.problems)
         self.notes = sorted(interp.notes)
-        self.imprecise = state.imprecise if state is not None else False
+        self.imprecise = (state.imprecise or state.forks != UNIVERSE) if state is not None else False
         top = {}
         tags = result.tags if isinstance(result, Bits) else frozenset()
         for b in (self.bits or ()):
